@@ -285,6 +285,22 @@ fn tag_laws(ctx: &mut Ctx, base: &Xstate) {
     } else {
         ctx.oracle_fail(format!("C13 insert-tag {} {} {}", canon::cell(&v0), canon::cell(&x), canon::cell(&key)), "a value".into(), ins.0.clone());
     }
+    // the formatting words add (or replace) the formatting tag and nothing else: every other tag stays
+    {
+        let w = *ctx.rng.pick(&["^hex", "^dec", "^oct", "^bin"]);
+        let f = run_quiet(base, w, &[v0.clone()]);
+        if let (Some(vf), Some(t0)) = (top(&f), v0.tags()) {
+            for (k, val) in t0.iter() {
+                if !same(k, &Cell::from("#fmt")) {
+                    let g = run_quiet(base, "get-tag", &[vf.clone(), k.clone()]);
+                    let exp = canon::ok_stack(&[val.clone()]);
+                    ctx.check(g.0 == exp, || format!("C13 get-tag {} after {} on {}", canon::cell(k), w, canon::cell(&v0)), || exp.clone(), || g.0.clone());
+                }
+            }
+            ctx.check(canon::cell(vf.value()) == canon::cell(v0.value()), || format!("C13 value({} {})", w, canon::cell(&v0)), || canon::cell(v0.value()), || canon::cell(vf.value()));
+            ctx.tag("fmt-word-keeps-the-other-tags");
+        }
+    }
     // an untagged value has no tags
     let plain = v0.value().clone();
     let t = stepc(ctx, "tags", &[plain.clone()]);
@@ -453,7 +469,12 @@ pub fn run(ctx: &mut Ctx) {
         }
         let closes = ctx.rng.below(depth + 1);
         for _ in 0..closes { src.push_str("close-bitstr "); }
-        let probe = *ctx.rng.pick(&["input tags", "offset tags", "remain tags", "input \"offset\" get-tag"]);
+        // … also after a `seek` whose argument carried tags (a number that was read, a number with a formatting tag): the
+        // offset is a position, not the cell that was passed in
+        if ctx.rng.chance(40) {
+            src.push_str(*ctx.rng.pick(&["|08| open-bitstr u8 close-bitstr seek ", "8 ^hex seek ", "0 1 \"k\" insert-tag seek ", "|00| open-bitstr big u8 close-bitstr seek "]));
+        }
+        let probe = *ctx.rng.pick(&["input tags", "offset tags", "remain tags", "input \"offset\" get-tag", "offset \"#fmt\" get-tag", "offset \"len\" get-tag"]);
         let full = format!("{}{}", src, probe);
         let mut xs = Xstate::boot().unwrap();
         xs.intercept_stdout(true);
